@@ -11,6 +11,7 @@ import (
 	"encoding/hex"
 	"encoding/json"
 	"fmt"
+	"math/big"
 	"math/rand"
 	"sort"
 	"strconv"
@@ -75,6 +76,12 @@ func fileJ(f sttypes.UnifiedFile, bad *[]string) stFile {
 		ps = append(ps, j)
 	}
 	return stFile{hex.EncodeToString(f.Merkle), f.Owner, f.Start, f.Expires, f.FileSize, f.ProofInterval, f.ProofType, ps, f.MaxProofs, f.Note}
+}
+
+// unixNanoJ is t.UnixNano() without the int64 overflow beyond the year 2262
+func unixNanoJ(t time.Time) BigNum {
+	b := new(big.Int).Mul(big.NewInt(t.Unix()), big.NewInt(1_000_000_000))
+	return BigNum{b.Add(b, big.NewInt(int64(t.Nanosecond())))}
 }
 
 func coinsJ(cs sdk.Coins) []interface{} {
@@ -159,7 +166,7 @@ func (c *Chain) storageAbs(users []string) (stState, []string) {
 	for _, kv := range c.RawStore(sttypes.StoreKey, sttypes.StoragePaymentInfoKeyPrefix) {
 		var p sttypes.StoragePaymentInfo
 		cdc.MustUnmarshal(kv[1], &p)
-		st.Payinfo = append(st.Payinfo, Pair{strings.TrimSuffix(string(kv[0]), "/"), map[string]interface{}{"startT": p.Start.UnixNano(), "endT": p.End.UnixNano(), "spaceAvailable": p.SpaceAvailable, "spaceUsed": p.SpaceUsed, "address": p.Address}})
+		st.Payinfo = append(st.Payinfo, Pair{strings.TrimSuffix(string(kv[0]), "/"), map[string]interface{}{"startT": unixNanoJ(p.Start), "endT": unixNanoJ(p.End), "spaceAvailable": p.SpaceAvailable, "spaceUsed": p.SpaceUsed, "address": p.Address}})
 	}
 	for _, kv := range c.RawStore(sttypes.StoreKey, sttypes.CollateralKeyPrefix) {
 		var p sttypes.Collateral
@@ -172,7 +179,7 @@ func (c *Chain) storageAbs(users []string) (stState, []string) {
 		cdc.MustUnmarshal(kv[1], &g)
 		acc, _ := sttypes.GetGaugeAccount(g)
 		id := hex.EncodeToString(g.Id)
-		st.Gauges = append(st.Gauges, Pair{id, map[string]interface{}{"id": id, "startT": g.Start.UnixNano(), "endT": g.End.UnixNano(), "coins": coinsJ(g.Coins), "account": acc.String()}})
+		st.Gauges = append(st.Gauges, Pair{id, map[string]interface{}{"id": id, "startT": unixNanoJ(g.Start), "endT": unixNanoJ(g.End), "coins": coinsJ(g.Coins), "account": acc.String()}})
 		tracked = append(tracked, acc.String())
 		noteGaugeAcc(acc.String())
 	}
@@ -281,10 +288,10 @@ func decodedProofJ(hashList []byte) interface{} {
 }
 
 type storageMix struct {
-	name                                                              string
-	buy, post, del, proof, prov, forms, sign, setters                 int
-	users                                                             int
-	proofWindow, checkWindow, chunk                                   int64
+	name                                              string
+	buy, post, del, proof, prov, forms, sign, setters int
+	users                                             int
+	proofWindow, checkWindow, chunk                   int64
 }
 
 var storageMixes = map[string]storageMix{
@@ -297,18 +304,21 @@ var storageMixes = map[string]storageMix{
 }
 
 type storageGen struct {
-	c      *Chain
-	r      *rand.Rand
-	users  []string
-	data   map[string]*dataFile // merkle hex -> content
-	mix    storageMix
-	ips    []string
-	blocks int
+	c       *Chain
+	r       *rand.Rand
+	users   []string
+	data    map[string]*dataFile // merkle hex -> content
+	mix     storageMix
+	ips     []string
+	blocks  int
+	lastBuy *sttypes.MsgBuyStorage
 }
 
 func (g *storageGen) user() string { return g.users[g.r.Intn(len(g.users))] }
 
-func (g *storageGen) allFiles() []sttypes.UnifiedFile { return g.c.A.StorageKeeper.GetAllFileByMerkle(g.c.Ctx()) }
+func (g *storageGen) allFiles() []sttypes.UnifiedFile {
+	return g.c.A.StorageKeeper.GetAllFileByMerkle(g.c.Ctx())
+}
 
 func (g *storageGen) jklPriceRaw() BigNum {
 	p := g.c.A.StorageKeeper.GetJklPrice(g.c.Ctx())
@@ -333,7 +343,7 @@ func gaugeDelta(pre, post stState, now int64, wantEnd int64) (string, string) {
 	}
 	for _, p := range post.Gauges {
 		g := p[1].(map[string]interface{})
-		if g["startT"].(int64) == now && g["endT"].(int64) == wantEnd {
+		if g["startT"].(BigNum).Int64() == now && g["endT"].(BigNum).IsInt64() && g["endT"].(BigNum).Int64() == wantEnd {
 			return p[0].(string), g["account"].(string)
 		}
 	}
@@ -379,7 +389,16 @@ func (g *storageGen) next() (sdk.Msg, map[string]interface{}, func(pre, post stS
 		if a, err := c.A.RnsKeeper.Resolve(c.Ctx(), ref); err == nil {
 			refJ = a.String()
 		}
+		if g.lastBuy != nil && r.Intn(6) == 0 { // an equal purchase by another account, often in the same block (same gauge id)
+			days, byts, denom, ref = g.lastBuy.DurationDays, g.lastBuy.Bytes, g.lastBuy.PaymentDenom, g.lastBuy.Referral
+			if a, err := c.A.RnsKeeper.Resolve(c.Ctx(), ref); err == nil {
+				refJ = a.String()
+			} else {
+				refJ = nil
+			}
+		}
 		msg := &sttypes.MsgBuyStorage{Creator: creator, ForAddress: forAddr, DurationDays: days, Bytes: byts, PaymentDenom: denom, Referral: ref}
+		g.lastBuy = msg
 		op := map[string]interface{}{"buyStorage": map[string]interface{}{"creator": creator, "forAddress": forAddr, "durationDays": days, "bytes": byts, "denom": denom, "referral": refJ, "jklPrice": g.jklPriceRaw(), "gaugeId": "", "gaugeAcc": ""}}
 		return msg, op, fillGauge("buyStorage", c.T.UnixNano()+days*86400_000_000_000)
 	case k < m.buy+m.post:
@@ -404,6 +423,9 @@ func (g *storageGen) next() (sdk.Msg, map[string]interface{}, func(pre, post stS
 		var expires int64
 		if r.Intn(3) == 0 {
 			expires = c.H + []int64{14400, 14399, 20000, 500000, 1, 5256000, 100}[r.Intn(7)]
+			if r.Intn(12) == 0 {
+				expires = c.H + 400*365*14400 // four centuries: End - Start exceeds time.Duration
+			}
 		} else if r.Intn(8) == 0 {
 			expires = -int64(1 + r.Intn(5)) // non-positive Expires is plan-paid
 		}
